@@ -620,6 +620,15 @@ impl Context {
         // rules, the record and the next hop have to see (as for client addresses)
         let target = match target {
             TargetAddress::SocketAddr(a) => TargetAddress::SocketAddr(crate::common::try_map_v4_addr(a)),
+            // the same literal where a client's protocol has room for a name (SOCKS5 address type 3,
+            // SOCKS4a, a CONNECT authority without brackets): the resolver would take it for the
+            // IPv4 host just the same
+            TargetAddress::DomainPort(host, port) => match host.parse::<std::net::Ipv6Addr>() {
+                Ok(a) if a.to_ipv4_mapped().is_some() => TargetAddress::SocketAddr(
+                    crate::common::try_map_v4_addr(SocketAddr::new(a.into(), port)),
+                ),
+                _ => TargetAddress::DomainPort(host, port),
+            },
             other => other,
         };
         Arc::make_mut(&mut self.props).target = target;
